@@ -12,6 +12,7 @@ NAMES = ["Alpha", "Beta", "Gamma", "Delta"]
 DANGLING = "Zeta"
 KINDS_NO_T = ["obj", "objinl", "enum", "prim", "arrnoitems", "enummixed", "objbadprop", "objbaddef"]
 KINDS_T = ["objref", "objarr", "allof", "wrap", "arr", "topref", "objrefbad"]
+KINDS_T_UNION = ["union", "unionarr"]
 MODEL_KINDS = {"obj", "objref", "objarr", "objinl", "allof", "objbadprop", "objbaddef", "objrefbad"}
 LAWS = ["Census", "Containment", "NoFalseAlarm", "ImportsClosed", "InlineFollowsOwner", "RoundsBounded"]
 
@@ -37,6 +38,10 @@ def concretize_shape(k: str, t: str, good_twin: bool = False) -> dict:
         return {"allOf": [ref(t)]}
     if k == "arr":
         return {"type": "array", "items": ref(t)}
+    if k == "union":
+        return {"oneOf": [ref(t), s]}
+    if k == "unionarr":
+        return {"oneOf": [{"type": "array", "items": ref(t)}, s]}
     if k == "enum":
         return {"type": "string", "enum": ["a", "b"]}
     if k == "prim":
